@@ -75,6 +75,9 @@ def eligible():
     return sorted(n for n, m in C.number_modules().items() if generators(m) and n not in C.GENERIC_ALGOS)
 
 
+THREAD_REPLICA = False   # this monitor uses a process-wide sys.monitoring probe / has its own thread trials
+
+
 def shards(tier):
     names = eligible()
     n = 24 if tier == 'quick' else 48
@@ -299,12 +302,17 @@ def module_work(name, mod, tier, rng, viols, cells, counters, samples, probe, ca
     return evals
 
 
-def algo_work(cfg, tier, rng, viols, cells):
+def algo_work(cfg, tier, rng, viols, cells, nested=False):
     A = c06.Algo(cfg)
     name = cfg['name'] if cfg['name'].startswith('algo/') else 'algo/' + cfg['name']
     evals = 0
+    if not nested:
+        comp = c06.companion(cfg)
+        if comp is not None:
+            # same algorithm, another alphabet of the same length first and in between (state keyed by length)
+            evals += algo_work(comp, tier, rng, viols, cells, nested=True)
     for w in c06.payloads(A, 'quick', rng):
-        if len(w) > 64:
+        if len(w) > 64 or (nested and len(w) > 12):
             continue
         try:
             c = A.calc(w)
